@@ -6,7 +6,7 @@ from .common import *
 
 CALLIDS = ["c", "c-x", "a@h", "c-x-1"]
 TAGS = ["x", "1", "x-1", "a-b", "x-sip"]
-URIS = ["sip:q@h", "sip:h", "sip:q@h:5", "sip:q@h-x-sip:5", "sip:5-x-sip:q@h", "tel:+1", "urn:service:sos", "sip:q:pw@h"]
+URIS = ["sip:q@h", "sip:h", "sip:q@h:5", "sip:q@h:5060", "sip:q@h-x-sip:5", "sip:5-x-sip:q@h", "tel:+1", "urn:service:sos", "sip:q:pw@h", "sip:h:5060", "sip:q@h:5061"]
 
 def core(uri):
     if uri.startswith("sip:") or uri.startswith("sips:"):
@@ -20,7 +20,7 @@ def akey(callid, h1, h2):
 def decorate(g, uri, level):
     if level == 0 or not uri.startswith("sip"):
         return "<%s>" % uri
-    return g.pick(["", "Bob ", '"B" ']) + "<%s%s%s>" % (uri, g.pick(["", ";transport=tcp", ";lr;x=1"]), g.pick(["", "?h=v"]))
+    return g.pick(["", "Bob ", '"B" ']) + "<%s%s%s>" % (uri, g.pick(["", ";transport=tcp", ";lr;x=1", ";transport=tls", ";transport=tls;lr"]), g.pick(["", "?h=v"]))
 
 def message(g, callid, ftag, furi, ttag, turi, as_response, level):
     sm = g.pick([0, 1, 2, 3]) if level else 0
@@ -37,7 +37,7 @@ def message(g, callid, ftag, furi, ttag, turi, as_response, level):
 def generate(seed, tier):
     g = Gen(seed)
     lines = []
-    cs, ts, us = (CALLIDS[:3], TAGS[:4], URIS[:6]) if tier == "quick" else (CALLIDS, TAGS, URIS)
+    cs, ts, us = (CALLIDS[:3], TAGS[:4], URIS[:7]) if tier == "quick" else (CALLIDS, TAGS, URIS)
     n = 0
     for c in cs:
         for t1, t2 in itertools.product(ts, repeat=2):
